@@ -2,6 +2,8 @@
    are runtime; proved is the logic the round trips rest on. *)
 From Curies.model Require Import Str PyData Conv Loaders Val Spec CheckQ Writers.
 From Curies.proofs Require Import StrFacts DictFacts WritersFacts.
+From Curies.model Require Import JsonStr ShaclText.
+From Curies.proofs Require Import JsonStrFacts ShaclTextFacts.
 
 (* extended prefix map: prefix, URI prefix and pattern exact (also pattern = ""), synonym sets equal (lists sorted) *)
 Theorem C14_epm : forall r, record_of_dict (record_to_dict r) = Some (normalise r).
@@ -49,3 +51,31 @@ Print Assumptions C14_P_model.
 (* without the escaping a backslash does not survive: defect D5 *)
 Example C14_unescaped_refuted : turtle_unescape [97; 92; 98]%N = Some [97; 8]%N /\ turtle_unescape (escape_bs [97; 92; 98]%N) = Some [97; 92; 98]%N.
 Proof. vm_compute. auto. Qed.
+
+(* ---- the text layer below the abstract values (models of the standard library, validated against the real Python by
+   tools/textlayer/validate_*.py: json 20 500 cases, SHACL lines against curies._get_shacl_line and rdflib 13 751 cases) ---- *)
+(* JSON string literals as json.dump writes and json.load reads them: with ensure_ascii=False (write_extended_prefix_map) every
+   string comes back; with ensure_ascii=True (write_jsonld_context) every Python str without a lone high surrogate immediately followed
+   by a lone low surrogate comes back, and that condition is exact *)
+Theorem C14_json_str_raw : forall s, json_decode_str (json_encode_str false s) = Some s.
+Proof. exact json_decode_encode_raw. Qed.
+Print Assumptions C14_json_str_raw.
+Theorem C14_json_str_ascii_iff : forall s, str_valid s = true ->
+  (json_decode_str (json_encode_str true s) = Some s <-> no_surrogate_pair s = true).
+Proof. exact json_str_roundtrip_ascii_iff. Qed.
+Print Assumptions C14_json_str_ascii_iff.
+Theorem C14_json_str_injective : forall ascii s1 s2, json_rt_ok ascii s1 = true -> json_rt_ok ascii s2 = true ->
+  json_encode_str ascii s1 = json_encode_str ascii s2 -> s1 = s2.
+Proof. exact json_encode_str_inj. Qed.
+Print Assumptions C14_json_str_injective.
+(* the whole TEXT of a SHACL line as _get_shacl_line writes it, read by a parser of that line shape (string literals scanned with
+   escapes, then unescaped): prefix, namespace and pattern come back; without the backslash doubling they never do *)
+Theorem C14_shacl_line_text : forall p u pat, printable_ok p = true -> printable_ok u = true ->
+  (match pat with Some x => printable_ok x = true | None => True end) ->
+  shacl_parse_line (shacl_line p u pat) = Some (p, u, match pat with Some (c :: x) => Some (c :: x) | _ => None end).
+Proof. exact shacl_line_roundtrip. Qed.
+Print Assumptions C14_shacl_line_text.
+Theorem C14_shacl_raw_never_roundtrips : forall p u pat u' pat', forallb turtle_safe p = true -> In backslash p ->
+  shacl_parse_line (shacl_line_raw p u pat) <> Some (p, u', pat').
+Proof. exact shacl_line_raw_never_roundtrips. Qed.
+Print Assumptions C14_shacl_raw_never_roundtrips.
